@@ -69,7 +69,7 @@ func init() {
 	// Configuration corner: a bucket size so large that K peer records of 8 KiB
 	// no longer fit the transport limit (K is free for non-Amino prefixes).
 	sim.Register(&sim.Scenario{Prop: "C09", Name: "server-huge-k", Weight: 1, Run: func(s *sim.Sim) { runC09(s, c09HugeK) },
-		Real: real, Stub: stub, Faults: []string{"probe_huge_k_response"}})
+		Real: real, Stub: stub, Faults: []string{"probe_huge_k_response", "probe_closer_cut_by_transport_limit", "probe_cut_list_plus_target", "probe_cut_list_plus_big_target"}})
 	sim.Register(&sim.Scenario{Prop: "C09", Name: "server-bulk", Weight: 2, Run: func(s *sim.Sim) { runC09(s, c09Bulk) },
 		Real: real, Stub: stub, Faults: []string{"probe_budget_truncated", "probe_record_trimmed", "probe_bulk_providers_served", "probe_max_size_frame_answered"}})
 }
@@ -99,16 +99,17 @@ type c09World struct {
 	seed    uint64
 	nseed   uint64
 
-	rt       []peer.ID        // routing table content after the fill
-	rtSet    map[peer.ID]bool //
-	senders  []*simnet.Peer   // remote peers played by the simulator
-	extras   []*simnet.Peer   // known non-table peers (providers, FIND_NODE targets)
-	prober   *simnet.Peer     // the honest prober of the final phase
-	foreign  []peer.ID        // ids that exist nowhere but in requests
-	provKeys [][]byte         // provider keys with prefilled content
-	valKeys  [][]byte         // value keys
-	bigKey   []byte           // bulk: the key with hundreds of providers
-	nBig     int              // bulk: how many
+	known    map[peer.ID][]ma.Multiaddr // the first address list the harness gave the node for a peer
+	rt       []peer.ID                  // routing table content after the fill
+	rtSet    map[peer.ID]bool           //
+	senders  []*simnet.Peer             // remote peers played by the simulator
+	extras   []*simnet.Peer             // known non-table peers (providers, FIND_NODE targets)
+	prober   *simnet.Peer               // the honest prober of the final phase
+	foreign  []peer.ID                  // ids that exist nowhere but in requests
+	provKeys [][]byte                   // provider keys with prefilled content
+	valKeys  [][]byte                   // value keys
+	bigKey   []byte                     // bulk: the key with hundreds of providers
+	nBig     int                        // bulk: how many
 	streams  []*c09Stream
 	perPeer  map[peer.ID]int
 
@@ -168,7 +169,7 @@ type c09Stream struct {
 func runC09(s *sim.Sim, variant int) {
 	w := &c09World{s: s, variant: variant, perPeer: map[peer.ID]int{},
 		prefillProv: map[string]map[peer.ID]bool{}, prefillAddrs: map[peer.ID]map[string]bool{},
-		apAllowed: map[string]map[peer.ID]bool{}, apAddrs: map[peer.ID]map[string]bool{}, apKeys: map[string]bool{}, rtSet: map[peer.ID]bool{}}
+		apAllowed: map[string]map[peer.ID]bool{}, apAddrs: map[peer.ID]map[string]bool{}, apKeys: map[string]bool{}, rtSet: map[peer.ID]bool{}, known: map[peer.ID][]ma.Multiaddr{}}
 	s.MaxSteps = 700
 	w.setup()
 	if s.Failed() {
@@ -190,8 +191,18 @@ func (w *c09World) setup() {
 	huge := w.variant == c09HugeK
 	w.seed = uint64(s.Draw("universe", 1<<16))
 	w.nseed = w.seed*0x9e3779b97f4a7c15 + 12345
+	hugeMix := 0
 	if huge {
+		// 0: every member advertises the same over-long list (each record is cut to
+		// the 8 KiB bound, all records have one size, the room left in a cut
+		// response is the same in every run); 1, 2: lists of different lengths, so
+		// that the room a cut response has left differs from request to request
+		// (see c09_targets.go)
+		hugeMix = s.Draw("huge-member-mix", 3)
 		w.K = 540
+		if hugeMix != 0 {
+			w.K = 600
+		}
 	} else if bulk {
 		w.K = []int{20, 8}[s.Draw("K", 2)]
 	} else {
@@ -202,7 +213,7 @@ func (w *c09World) setup() {
 		nRT = 40
 	}
 	if huge {
-		nRT = 560
+		nRT = w.K + 20
 	}
 	nSenders := 1 + s.Draw("senders", 4)
 	nExtras := s.Range("extras", 1, 5)
@@ -295,6 +306,14 @@ func (w *c09World) setup() {
 		if dup {
 			p = outsiders[i]
 		}
+		if huge && p == outsiders[i] {
+			// a requester the node is not a neighbour of but knows addresses of
+			// (no ADD_PROVIDER is generated in this variant: nothing else would
+			// ever put an outsider's addresses into the peerstore)
+			if addrs := w.drawKnownAddrs("sender-addrs", p); addrs != nil {
+				w.prefill(p.ID, addrs, peerstore.PermanentAddrTTL)
+			}
+		}
 		w.senders = append(w.senders, p)
 		// a sender that sits in the table always has addresses from the start:
 		// its own ADD_PROVIDER could otherwise change the "has addresses"
@@ -303,6 +322,7 @@ func (w *c09World) setup() {
 			class[p.ID] = 0
 		}
 	}
+	mixRng := c09Rng(w.nseed ^ uint64(hugeMix)<<32)
 	for _, p := range rtPeers {
 		switch class[p.ID] {
 		case 0:
@@ -310,18 +330,30 @@ func (w *c09World) setup() {
 		case 2:
 			// fat lists hold addresses of one size only: whichever subset survives
 			// the 8 KiB trim (peerstore order is not ours), sizes stay the same
-			w.prefill(p.ID, c09FatAddrs(40), peerstore.PermanentAddrTTL)
+			n := 40
+			if hugeMix != 0 {
+				n = 29 + int(mixRng.next()%12) // 29..40: about 7 KiB up to "cut to 8 KiB"
+			}
+			w.prefill(p.ID, c09FatAddrs(n), peerstore.PermanentAddrTTL)
 		}
 		_, _ = d.RoutingTable().TryAddPeer(p.ID, true, false)
 	}
 	for _, p := range w.extras {
-		if s.Chance("extra-fat", 1, 4) {
-			w.prefill(p.ID, c09FatAddrs(40), peerstore.PermanentAddrTTL)
-		} else {
-			w.prefill(p.ID, p.Addrs, peerstore.PermanentAddrTTL)
+		// known non-members always have an address; how much is drawn
+		addrs := w.drawKnownAddrs("extra-addrs", p)
+		if addrs == nil {
+			addrs = p.Addrs
 		}
+		w.prefill(p.ID, addrs, peerstore.PermanentAddrTTL)
 	}
-	if s.Chance("self-addrs-known", 1, 3) {
+	if huge {
+		if addrs := w.drawKnownAddrs("self-addrs", w.u.Self); addrs != nil {
+			w.prefill(w.u.Self.ID, addrs, peerstore.PermanentAddrTTL)
+		}
+		if addrs := w.drawKnownAddrs("prober-addrs", w.prober); addrs != nil {
+			w.prefill(w.prober.ID, addrs, peerstore.PermanentAddrTTL)
+		}
+	} else if s.Chance("self-addrs-known", 1, 3) {
 		w.prefill(w.u.Self.ID, w.u.Self.Addrs, peerstore.PermanentAddrTTL)
 	}
 	s.Quiesce()
@@ -362,6 +394,18 @@ func (w *c09World) setup() {
 			}
 			if class[p.ID] == 1 && w.rtSetHas(p.ID) {
 				addrs = nil // keep address-less table members address-less
+			}
+			if huge && addrs != nil && p != w.u.Self {
+				// Here the number of records that fit a response is observable, so the
+				// size of every record must be ours: a peer's addresses all have one
+				// size (which of them survive the 8 KiB cut is the peerstore's map
+				// order). A provider record therefore repeats what is already known
+				// about the peer, or is the first thing known about it.
+				if l := w.known[p.ID]; l != nil {
+					addrs = l
+				} else {
+					w.known[p.ID] = addrs
+				}
 			}
 			addProv(key, p.ID, addrs)
 		}
@@ -437,6 +481,9 @@ func (w *c09World) rtSetHas(p peer.ID) bool {
 
 func (w *c09World) prefill(id peer.ID, addrs []ma.Multiaddr, ttl time.Duration) {
 	w.h.Peerstore().AddAddrs(id, addrs, ttl)
+	if w.known[id] == nil {
+		w.known[id] = addrs
+	}
 	w.notePrefill(id, addrs)
 }
 
